@@ -400,10 +400,16 @@ def gen_case(rng, stream, forced=None, focus=None):
             kwargs.append([p['name'], vals[p['name']]])
     vk = [p for p in params if p['kind'] == 'varkw']
     if vk:
-        for name in rng.sample(EXTRA_KW, rng.choice([0, 1, 2])):
+        # parameter names are inputs too: a key spelled like the var-keyword / var-positional parameter itself lands in **kwargs
+        own = [vk[0]['name']] + [p['name'] for p in params if p['kind'] == 'varpos']
+        pool = EXTRA_KW + own * 2
+        for name in rng.sample(pool, rng.choice([0, 1, 2, 2])):
+            if name in [k for k, _ in kwargs]:
+                continue
             v = conf(rng, vk[0]['ann'])
             if v is not None:
                 kwargs.append([name, v])
+    kwargs_full = copy.deepcopy(kwargs)
     vp = [p for p in params if p['kind'] == 'varpos']
     positional_style = False
     if vp and (rng.random() < 0.6 or focus == 'varargs'):
@@ -423,6 +429,10 @@ def gen_case(rng, stream, forced=None, focus=None):
     rng.shuffle(kwargs)
     c['args'], c['kwargs'] = args, kwargs
     c['mut'] = 'none'
+    # the call under test is made while a conforming keyword call of the same callable is running (re-entrancy)
+    if (c['mode'] == 'pedantic' and kind in ('func', 'stacked', 'class_deco', 'method_direct') and not c['async']
+            and not c.get('self_kw') and rng.random() < 0.12):
+        c['inside'] = {'kwargs': copy.deepcopy(kwargs_full)}
     # a second function of the same name defined (and called) earlier in the same module: nothing may leak from it
     if kind in ('func', 'require_kwargs') and c['style'] == 'func' and rng.random() < 0.08:
         c['shadow'] = {'star': rng.random() < 0.7, 'args': [['int', 1]] * rng.choice([1, 2])}
@@ -553,6 +563,83 @@ def mutate_malformed(rng, c, kind):
         c['mut'] = 'none'
 
 
+LEAF_FOR_LISTS = [['cls', 'int'], ['cls', 'str'], ['cls', 'float'], ['cls', ['user', [0]]], ['cls', 'bool']]
+
+
+def gen_history_case(rng, stream):
+    """a SEQUENCE on one decorated callable: conforming calls that use a mutable default, then the default object is mutated in
+    place (by a conforming or - near-miss - a non-conforming element), then the call under test omits the parameter again.
+    Every call is judged against the state of the default AT THAT CALL (the function is reified after the mutation)."""
+    for _ in range(20):
+        c = gen_case(rng, 'valid', forced=rng.choice(['func', 'func', 'class_deco', 'method_direct', 'stacked']))
+        if not c['async'] and not c.get('self_kw') and c['mut'] == 'none' and not c.get('inside'):
+            break
+    c['stream'] = stream
+    c.pop('shadow', None)
+    x = rng.choice(LEAF_FOR_LISTS)
+    ann = ['gen', rng.choice(['typing', 'builtin']), 'List', [x]]
+    elems = [conf(rng, x) for _ in range(rng.choice([0, 0, 1, 2]))]
+    p = {'name': 13, 'kind': 'kwonly', 'ann': ann, 'default': ['list', [e for e in elems if e is not None]]}
+    params = c['params']
+    k = len(params) - (1 if params and params[-1]['kind'] == 'varkw' else 0)
+    params.insert(k, p)
+    c['kwargs'] = [kv for kv in c['kwargs'] if kv[0] != 13]
+    good = conf(rng, x)
+    bad = wrong(rng, x, good) if good is not None else None
+    pre_kwargs = [kv for kv in (c.get('inside') or {}).get('kwargs', [])] or [kv for kv in c['kwargs']]
+    if c['args']:          # a positional call of a *args function: the earlier calls are keyword calls of the named parameters only
+        pre_kwargs = None
+    c['history'] = {'pre': [copy.deepcopy(pre_kwargs)] * rng.choice([1, 2]) if pre_kwargs is not None else []}
+    if stream == 'near' and bad is not None:
+        c['history']['mutate'] = {'name': 13, 'append': bad}
+        c['mut'] = 'default_mutated'
+    elif good is not None and rng.random() < 0.7:
+        c['history']['mutate'] = {'name': 13, 'append': good}
+    return c
+
+
+def gen_selfann_case(rng, stream):
+    """a standalone @pedantic instance method annotated with typing.Self, on a receiver that may be falsy (a class with
+    __len__ returning 0 / __bool__ returning False).  typing.Self is outside the abstract syntax of the model: these cases
+    are conforming keyword calls by construction and are judged on the implementation against the transparency oracle only."""
+    c = {'mode': 'pedantic', 'style': 'method_direct', 'mkind': 'instance', 'name': 'm', 'recv_name': 0, 'decos': ['pedantic'],
+         'async': rng.random() < 0.15, 'gen': False, 'text': 'none', 'via': 'instance', 'ctx': GC.CTX, 'stream': stream, 'mut': 'none',
+         'nomodel': True, 'exc_msg': 0}
+    params, kwargs = [], []
+    for i in range(rng.choice([0, 1, 2])):
+        a, v = plain_ann_val(rng, rng.choice([0, 1]))
+        params.append({'name': POS_NAMES[i], 'kind': 'pos', 'ann': a, 'default': None})
+        kwargs.append([POS_NAMES[i], v])
+    where = rng.choice(['ret', 'ret', 'param', 'both'])
+    if where in ('param', 'both'):
+        params.append({'name': 11, 'kind': 'kwonly', 'ann': ['selftype'], 'default': None})
+        kwargs.append([11, ['recv2']])
+    if where in ('ret', 'both'):
+        c['ret'], c['body'] = ['selftype'], ['ret', ['recv']]
+    else:
+        c['ret'], c['body'] = plain_ann_val(rng, 0)
+        c['body'] = ['ret', c['body']]
+    c['selfann'] = {'where': where, 'falsy': rng.choice([None, 'len', 'len', 'bool'])}
+    c['params'], c['args'], c['kwargs'] = params, [], kwargs
+    return c
+
+
+def judge_nomodel(pid, case, i):
+    """conforming keyword calls by construction, judged against the undecorated callable: the body runs once on the caller's
+    objects, the very result object comes back, the receiver is not even asked for its length / truth value"""
+    if pid != 'C04':
+        return None
+    if i['out'] != 0:
+        return f'conforming keyword call (typing.Self, receiver falsy: {case["selfann"]["falsy"]}): outcome {i["out"]} ({i.get("exc")}), the undecorated method returns'
+    if len(i['journal']) != 1:
+        return f'conforming keyword call (typing.Self): the body ran {len(i["journal"])} times'
+    if not i.get('same_object', True):
+        return 'conforming keyword call (typing.Self): the caller did not receive the very object the body produced'
+    if i.get('len_calls'):
+        return 'conforming keyword call (typing.Self): checking asked the receiver for its length / truth value'
+    return None
+
+
 def gen_cases(rng, tier, scale=1):
     n = int((700 if tier == 'quick' else 60000) * scale)
     cases = []
@@ -560,9 +647,13 @@ def gen_cases(rng, tier, scale=1):
         r = rng.random()
         stream = 'valid' if r < 0.45 else 'near' if r < 0.90 else 'malformed'
         r2 = rng.random()
-        if r2 < 0.18:
+        if r2 < 0.07:
+            cases.append(gen_history_case(rng, stream if stream != 'malformed' else 'near'))
+        elif r2 < 0.10:
+            cases.append(gen_selfann_case(rng, 'valid'))
+        elif r2 < 0.28:
             cases.append(gen_gen_case(rng, stream))
-        elif r2 < 0.30:
+        elif r2 < 0.40:
             cases.append(gen_case(rng, stream, forced=rng.choice(['func', 'stacked', 'stacked', 'class_deco', 'method_direct']), focus='varargs'))
         else:
             cases.append(gen_case(rng, stream))
@@ -769,7 +860,7 @@ def matcher(finding, case):
 def evaluate(ck, cases):
     """run implementation and model on the cases; returns list of (case, impl, decoded model or None)"""
     impl = ck.run_impl('w_pedantic', cases, timeout=900)
-    idx = [k for k, i in enumerate(impl) if i and 'fn' in i]
+    idx = [k for k, i in enumerate(impl) if i and 'fn' in i and not cases[k].get('nomodel')]
     # the model and the oracle evaluate the REIFIED values (what the rendered objects really are: {True: .., 1.0: ..} is one item)
     for k in idx:
         rf = impl[k].get('reified') or {}
@@ -825,6 +916,10 @@ def reductions(c):
         d = copy.deepcopy(base); d['text'] = 'none'; out.append(d)
     if base.get('shadow'):
         d = copy.deepcopy(base); d.pop('shadow'); out.append(d)
+    if base.get('inside'):
+        d = copy.deepcopy(base); d.pop('inside'); out.append(d)
+    if base.get('history') and len(base['history'].get('pre', [])) > 1:
+        d = copy.deepcopy(base); d['history']['pre'] = d['history']['pre'][:1]; out.append(d)
     if base.get('drive') == 'yield_from':
         d = copy.deepcopy(base); d['drive'] = 'direct'; out.append(d)
     if base.get('exc_msg'):
@@ -902,12 +997,23 @@ def run(pid, props, tier, seed, replay=None):
             bump('skipped'); continue
         if 'decoration' in i:
             bump('rejected-at-decoration'); continue
+        if c.get('nomodel'):
+            bump('stream:model-free(typing.Self)'); bump('outcome:%d' % i['out'])
+            ck.note_case(json.dumps([c['params'], c['kwargs'], c['selfann'], c['ret']], sort_keys=True), nontrivial=True)
+            what = judge_nomodel(pid, c, i)
+            if what:
+                ck.violation(what, dict(c, _fn=i['fn']), stream='pedantic/self', extra={'impl': {k: v for k, v in i.items() if k != 'fn'}}, matcher=matcher)
+            else:
+                ck.traces_validated += 1
+            continue
         if m is None:
             disagreements.append({'case': c, 'what': 'model evaluation failed'})
             continue
         key = json.dumps([c[k] for k in ('style', 'mkind', 'name', 'decos', 'text', 'via', 'params', 'ret', 'args', 'kwargs', 'body', 'async')],
                          sort_keys=True)
         ck.note_case(key, nontrivial=len(c['params']) >= 1 and (c['mut'] != 'none' or len(c['kwargs']) + len(c['args']) >= 1))
+        if c.get('history'): bump('history(calls before, default mutated)')
+        if c.get('inside'): bump('made-inside-a-running-call')
         bump('stream:' + c['stream']); bump('style:' + c['style'] + '/' + c['mkind']); bump('mut:' + c['mut'])
         bump('outcome:%d' % i['out']); bump('body-ran:%d' % len(i['journal']))
         if c['text'] != 'none': bump('text-varied')
